@@ -684,6 +684,22 @@ func (e *specEnv) evalCall(s *SExpr) T {
 			return e.fail("typeid: unknown type %s", s.Args[0].String())
 		}
 		return mkMath(fmt.Sprint(x.d.typeID(t)))
+	case "cap":
+		// cap(x) of a local slice variable whose capacity is tracked (see capmodel.go)
+		if len(s.Args) == 1 && (s.Args[0].Op == "ident" || s.Args[0].Op == "result") && e.pos != 0 && e.pkg != nil {
+			nm := s.Args[0].Name
+			if s.Args[0].Op == "result" {
+				nm = "result" // a local that happens to be called result
+			}
+			if sc := e.pkg.types.Scope().Innermost(e.pos); sc != nil {
+				if _, o := sc.LookupParent(nm, e.pos); o != nil {
+					if v, ok := e.cur().ghost[capKey(o)]; ok {
+						return mkMath(v.S)
+					}
+				}
+			}
+		}
+		return e.fail("cap(%s): capacity is not tracked for this expression", s.Args[0].String())
 	case "errorsIs":
 		// errorsIs(err, target): the relation the executable errors.Is(err, target) is modelled by
 		a, b := e.eval(s.Args[0]), e.eval(s.Args[1])
